@@ -28,8 +28,10 @@ MANIFEST = {
             "direct oracle compares lab.observe(client) with lab.observe(server) and checks each parameter against each side's "
             "own settings.",
     "note": "Trusted: Lean kernel, translator gen_negotiate.py, the lab (in-memory socket pair), python-ecdsa/X.509 parsing "
-            "(exercised, not modelled). Not modelled: virtual_hosts, TACK, NPN, session resumption/tickets, delegated "
-            "credentials, certificate compression, heartbeat, ML-KEM/ML-DSA (libraries absent), maxVersion=(3,0) clients.",
+            "(exercised, not modelled). Not modelled in Lean: virtual_hosts, TACK, NPN, resumption (oracle only: session-ID "
+            "resumption under changed policies), session tickets / TLS 1.3 PSK resumption (C13), delegated credentials, "
+            "certificate compression, heartbeat, ML-KEM/ML-DSA (libraries absent), maxVersion=(3,0) clients, FALLBACK_SCSV, "
+            "the size of the second ClientHello after HelloRetryRequest against a small server record_size_limit.",
     "technique": "Lean 4 proofs over an executable model; differential correspondence model vs live handshakes; independent view/policy oracle",
 }
 
@@ -130,7 +132,8 @@ def gen_settings(rng, base, p=0.22, role="client", thorough=False):
 
     if hit(min(0.35, 0.1 + p)):
         lo = rng.choice(VERS)
-        hi = rng.choice([v for v in VERS if v >= lo and v >= (3, 1)])
+        # a client capped at SSLv3 sends no extensions at all (not modelled); a server may be
+        hi = rng.choice([v for v in VERS if v >= lo and (v >= (3, 1) or role == "server")])
         d["minVersion"], d["maxVersion"] = lo, hi
     if hit():
         pool = hs.ALL_CIPHER_NAMES if hit(0.5) else hs.CIPHER_NAMES
@@ -404,6 +407,170 @@ def run_case(case):
     L.start_server(lambda c: c.handshakeServerAsync(**skw))
     L.run()
     return L, cap
+
+
+def run_resume(case):
+    """TLS <= 1.2 session-ID resumption: a full handshake under (cs, ss) that fills the server's session
+    cache, then a second connection offering that session under (cs2, ss2).  Returns (L1, L2, cap2);
+    L2 is None when the first handshake did not complete."""
+    from tlslite.sessioncache import SessionCache
+    from .. import lab
+    cache = SessionCache()
+    chain, key = lab.creds(case["scred"])
+    sni = case["sni"]
+
+    def one(csd, ssd, session, calpn, salpn):
+        L = lab.Lab()
+        cap = Capture()
+        cap.install(L)
+        cs, ss = mk_settings(csd), mk_settings(ssd)
+        a_c = [bytearray(a) for a in calpn] if calpn else None
+        a_s = [bytearray(a) for a in salpn] if salpn else None
+        L.start_client(lambda c: c.handshakeClientCert(settings=cs, session=session, serverName=sni, alpn=a_c, async_=True))
+        L.start_server(lambda c: c.handshakeServerAsync(certChain=chain, privateKey=key, settings=ss,
+                                                         sessionCache=cache, alpn=a_s))
+        L.run()
+        return L, cap
+
+    L1, _ = one(case["cs"], case["ss"], None, case["calpn"], case["salpn"])
+    if not (L1.client.state == "done" and L1.server.state == "done"):
+        return L1, None, None
+    r = case["resume"]
+    L2, cap2 = one(r["cs2"], r["ss2"], L1.client.conn.session, r.get("calpn2", case["calpn"]), r.get("salpn2", case["salpn"]))
+    return L1, L2, cap2
+
+
+def oracle_resumed(ctx, case, L, cap):
+    """after the second handshake completed on both ends: equal views, parameters inside the CURRENT settings"""
+    from .. import lab
+    t = tables()
+    r = case["resume"]
+    cs, _ = validated(r["cs2"])
+    ss, _ = validated(r["ss2"])
+    oc, os_ = lab.observe(L.client.conn), lab.observe(L.server.conn)
+    bad = []
+    for f in VIEW_FIELDS + ["resumed"]:
+        if oc.get(f) != os_.get(f):
+            bad.append(("c03:resumption:view-differs:" + f, "client holds %r, server holds %r for %s after the second handshake"
+                        % (short(oc.get(f)), short(os_.get(f)), f)))
+    if oc["version"] >= (3, 1):
+        for label, n in EXPORT_PROBES[:2]:
+            try:
+                ea = bytes(L.client.conn.keyingMaterialExporter(bytearray(label), n))
+                eb = bytes(L.server.conn.keyingMaterialExporter(bytearray(label), n))
+            except Exception as e:
+                ea, eb = "exception", type(e).__name__
+            if ea != eb:
+                bad.append(("c03:resumption:exporter-differs", "keyingMaterialExporter differs after resumption"))
+    if not (oc["send_limit"] <= os_["recv_limit"]):
+        bad.append(("c03:resumption:record-limit", "client sends up to %d, server accepts %d" % (oc["send_limit"], os_["recv_limit"])))
+    if not (os_["send_limit"] <= oc["recv_limit"]):
+        bad.append(("c03:resumption:record-limit", "server sends up to %d, client accepts %d" % (os_["send_limit"], oc["recv_limit"])))
+    v, suite = oc["version"], oc["cipherSuite"]
+    for who, st in (("client", cs), ("server", ss)):
+        if not (tuple(st.minVersion) <= tuple(v) <= tuple(st.maxVersion)):
+            bad.append(("c03:resumption:%s-version-outside-policy" % who, "version %s, %s now allows %s..%s" % (v, who, st.minVersion, st.maxVersion)))
+        sem = t["sem"].get(suite)
+        if sem is None:
+            bad.append(("c03:resumption:unknown-suite", "suite %r" % suite))
+            continue
+        ciph, mac, kex = sem
+        if ciph not in st.cipherNames:
+            bad.append(("c03:resumption:%s-cipher-outside-policy" % who, "suite 0x%04x uses %s, %s now allows %s" % (suite, ciph, who, st.cipherNames)))
+        if mac not in st.macNames:
+            bad.append(("c03:resumption:%s-mac-outside-policy" % who, "suite 0x%04x uses MAC %s, %s now allows %s" % (suite, mac, who, st.macNames)))
+        if kex not in st.keyExchangeNames:
+            bad.append(("c03:resumption:%s-kex-outside-policy" % who, "suite 0x%04x uses %s, %s now allows %s" % (suite, kex, who, st.keyExchangeNames)))
+    return bad
+
+
+def evaluate_resume(ctx, case):
+    if validated(case["cs"])[0] is None or validated(case["ss"])[0] is None or \
+            validated(case["resume"]["cs2"])[0] is None or validated(case["resume"]["ss2"])[0] is None:
+        ctx.count("skipped:invalid-settings")
+        return
+    from .. import lab
+    L1, L2, cap2 = run_resume(case)
+    if L2 is None:
+        ctx.count("resumption:first handshake failed")
+        return
+    c, s = L2.client, L2.server
+    key = ("resume", enc_settings(validated(case["cs"])[0]), enc_settings(validated(case["ss"])[0]),
+           enc_settings(validated(case["resume"]["cs2"])[0]), enc_settings(validated(case["resume"]["ss2"])[0]), case["scred"])
+    ctx.case(key=key, nontrivial=True, sample=None)
+    if c.state == "done" and s.state == "done":
+        ctx.count("resumption:second handshake %s" % ("resumed" if L2.client.conn.resumed else "full"))
+        for k, what in oracle_resumed(ctx, case, L2, cap2):
+            ctx.violation(k, what, dict(jsonable_case(case), stage="resumption", key=k))
+    else:
+        ctx.count("resumption:second handshake failed (%s / %s)" % (lab.exc_class(c.exc), lab.exc_class(s.exc)))
+
+
+def gen_resume_case(ctx, idx):
+    """policy A for the first handshake, policy B (a change of the cipher/MAC/key-exchange names, versions or
+    record size limit on either side) for the second"""
+    rng = ctx.rng
+    base = default_fields()
+    base["maxVersion"] = (3, 3)
+    for _ in range(30):
+        cs = gen_settings(rng, base, rng.choice([0.0, 0.05, 0.1]), "client")
+        ss = gen_settings(rng, base, rng.choice([0.0, 0.05, 0.1]), "server")
+        for d in (cs, ss):
+            if tuple(d["maxVersion"]) > (3, 3):
+                d["maxVersion"] = (3, 3)
+            if tuple(d["minVersion"]) > tuple(d["maxVersion"]):
+                d["minVersion"] = d["maxVersion"]
+        cs2, ss2 = copy.deepcopy(cs), copy.deepcopy(ss)
+        from tlslite import handshakesettings as hs
+        for d in (cs2, ss2):
+            q = rng.random()
+            if q < 0.35:
+                d["cipherNames"] = subset(rng, hs.CIPHER_NAMES, keep=rng.randint(1, 3))
+            elif q < 0.5:
+                d["macNames"] = subset(rng, hs.MAC_NAMES, keep=rng.randint(1, 3))
+            elif q < 0.6:
+                d["keyExchangeNames"] = subset(rng, ["rsa", "dhe_rsa", "ecdhe_rsa", "ecdhe_ecdsa"], keep=rng.randint(1, 3))
+            elif q < 0.7:
+                v = rng.choice([(3, 1), (3, 2), (3, 3)])
+                d["minVersion"] = d["maxVersion"] = v
+            elif q < 0.85:
+                d["record_size_limit"] = rng.choice(RSLS)
+        if all(validated(d)[0] is not None for d in (cs, ss, cs2, ss2)):
+            break
+    return {"fault": None, "cs": cs, "ss": ss, "cflavour": "cert", "sflavour": "cert",
+            "scred": rng.choice(["rsa", "rsa", "ecdsa", "dsa"]), "ccred": None, "reqCert": False,
+            "calpn": None, "salpn": None, "sni": rng.choice([None, "example.com"]), "ssni": None,
+            "srp_bits": 0, "srp_user_known": True, "seed": ctx.seed, "index": idx,
+            "resume": {"cs2": cs2, "ss2": ss2}}
+
+
+def directed_resume_cases(ctx):
+    base = default_fields()
+    base["maxVersion"] = (3, 3)
+    out = []
+
+    def mk(cs=None, ss=None, cs2=None, ss2=None, scred="rsa"):
+        a = dict(copy.deepcopy(base), **(cs or {}))
+        b = dict(copy.deepcopy(base), **(ss or {}))
+        return {"fault": None, "cs": a, "ss": b, "cflavour": "cert", "sflavour": "cert", "scred": scred, "ccred": None,
+                "reqCert": False, "calpn": None, "salpn": None, "sni": None, "ssni": None, "srp_bits": 0,
+                "srp_user_known": True, "seed": ctx.seed, "index": -1,
+                "resume": {"cs2": dict(copy.deepcopy(a), **(cs2 or {})), "ss2": dict(copy.deepcopy(b), **(ss2 or {}))}}
+    # unchanged policies: plain resumption
+    out.append(mk())
+    # the server's policy is tightened while its cache is kept
+    out.append(mk(cs={"cipherNames": ["aes128gcm", "aes256gcm"]}, ss2={"cipherNames": ["aes256gcm"]}))
+    out.append(mk(cs={"cipherNames": ["aes128", "aes256"]}, ss2={"cipherNames": ["aes256"]}))
+    out.append(mk(ss2={"macNames": ["sha"]}))
+    out.append(mk(ss2={"keyExchangeNames": ["rsa"]}))
+    out.append(mk(ss2={"minVersion": (3, 2), "maxVersion": (3, 2)}))
+    out.append(mk(cs={"maxVersion": (3, 2)}, ss2={"minVersion": (3, 3)}))
+    # record size limits on the abbreviated handshake
+    for a, b in ((None, None), (1000, 2000), (2 ** 14, 512), (64, 64)):
+        out.append(mk(cs={"record_size_limit": 4096}, ss={"record_size_limit": 8192},
+                      cs2={"record_size_limit": a} if a else {}, ss2={"record_size_limit": b} if b else {}))
+    out.append(mk(cs={"cipherNames": ["aes128"]}, ss={"record_size_limit": 700}))
+    return out
 
 
 def alert_name(desc):
@@ -879,6 +1046,27 @@ def directed_cases(ctx):
                       fault="server-ignores-offered-sigalgs", scred="ecdsa" if hi < (3, 4) else "rsa"))
         out.append(mk(cs={"maxVersion": hi}, ss={}, calpn=[b"h2"], salpn=[b"h2"], fault="server-alpn-outside-offer"))
         out.append(mk(cs={"maxVersion": hi}, ss={}, calpn=None, salpn=[b"h2"], fault="server-alpn-outside-offer"))
+    # SSLv3 on the server (no extended master secret there), TLS 1.0 / 1.1
+    out.append(mk(cs={"minVersion": (3, 0)}, ss={"minVersion": (3, 0), "maxVersion": (3, 0)}))
+    out.append(mk(cs={"minVersion": (3, 0), "maxVersion": (3, 3)}, ss={"minVersion": (3, 0), "maxVersion": (3, 0)}))
+    out.append(mk(cs={"minVersion": (3, 0), "maxVersion": (3, 2)}, ss={"minVersion": (3, 0), "maxVersion": (3, 0)}, scred="ecdsa",
+                  ccred="client_rsa", reqCert=True))
+    out.append(mk(cs={"minVersion": (3, 0), "maxVersion": (3, 3), "requireExtendedMasterSecret": True}, ss={"minVersion": (3, 0), "maxVersion": (3, 0)}))
+    out.append(mk(cs={"minVersion": (3, 0)}, ss={"minVersion": (3, 0), "maxVersion": (3, 0), "requireExtendedMasterSecret": True}, scred="ecdsa"))
+    out.append(mk(cs={"maxVersion": (3, 1)}, ss={}))
+    out.append(mk(cs={}, ss={"maxVersion": (3, 2)}, scred="dsa"))
+    # local credentials unusable for what was negotiated (each is a listed finding: keep them exercised)
+    out.append(mk(cs={"maxVersion": (3, 3), "rsaSigHashes": []}, ss={"maxVersion": (3, 3)}, scred="ecdsa", ccred="client_rsa", reqCert=True))
+    out.append(mk(cs={"maxVersion": (3, 2)}, ss={"maxVersion": (3, 2)}, scred="ed25519"))
+    out.append(mk(cs={"maxVersion": (3, 2)}, ss={"maxVersion": (3, 2)}, scred="ed448"))
+    out.append(mk(cs={"maxVersion": (3, 2)}, ss={"maxVersion": (3, 2)}, ccred="client_ed25519", reqCert=True))
+    out.append(mk(cs={"maxVersion": (3, 2)}, ss={"maxVersion": (3, 2)}, cflavour="srp", sflavour="srpcert", scred="rsapss", srp_bits=2048))
+    out.append(mk(cs={"maxVersion": (3, 3), "keyExchangeNames": ["dh_anon"], "dhGroups": ["ffdhe2048"]},
+                  ss={"maxVersion": (3, 3), "keyExchangeNames": ["dh_anon"], "dhGroups": ["ffdhe3072"]},
+                  cflavour="anon", sflavour="anon", scred=None))
+    out.append(mk(cs={"maxVersion": (3, 3), "keyExchangeNames": ["ecdh_anon"], "eccCurves": ["secp256r1"], "keyShares": ["secp256r1"]},
+                  ss={"maxVersion": (3, 3), "keyExchangeNames": ["ecdh_anon"], "eccCurves": ["secp384r1"], "keyShares": ["secp384r1"]},
+                  cflavour="anon", sflavour="anon", scred=None))
     # curves: client preference decides in TLS 1.2, server preference in TLS 1.3
     out.append(mk(cs={"maxVersion": (3, 3), "eccCurves": ["secp384r1", "secp256r1"]}, ss={"eccCurves": ["secp256r1", "secp384r1"]}))
     out.append(mk(cs={"eccCurves": ["secp384r1", "secp256r1"], "keyShares": ["secp384r1", "secp256r1"]},
@@ -971,8 +1159,10 @@ def run(ctx):
                 "HandshakeSettings fields (versions, cipher/MAC/key-exchange names, curves, FFDHE groups, key shares, signature "
                 "hashes/schemes, key sizes, EtM, EMS use/require, record_size_limit, dhParams, PSK configs/modes), independent or "
                 "nested, x flavour (cert with 9 server credential kinds, SRP, SRP+cert, anon, external PSK with/without cert, "
-                "mismatched) x client auth with 4 client credential kinds x ALPN lists x SNI, plus directed boundary cases; "
-                "distinct = distinct (validated settings pair, flavour, credentials, alpn, sni)")
+                "mismatched) x client auth with 4 client credential kinds x ALPN lists x SNI, plus directed boundary cases, "
+                "a faulty-server variant (server made to ignore the offered suites / signature algorithms / ALPN list: only the "
+                "client's acceptance is judged) and a TLS<=1.2 session-ID resumption flavour (second connection under changed "
+                "policies); distinct = distinct (validated settings pair, flavour, credentials, alpn, sni, fault)")
     ctx.assumptions = ["the in-memory link delivers bytes unmodified (no attacker: C04 covers tampering)",
                        "suite semantics are read from the registered IETF names (translate/gen_negotiate.py:parse_name)",
                        "ecdhCurve/serverSigAlg/dhGroupSize are compared only where both endpoints record a value "
@@ -984,10 +1174,15 @@ def run(ctx):
     for case in directed_cases(ctx):
         evaluate(ctx, case, pending)
     flush(ctx, pending)
+    for case in directed_resume_cases(ctx):
+        evaluate_resume(ctx, case)
     n = ctx.pick(4000, 60000)
     for i in range(n):
         if time.time() - t0 > budget:
             break
+        if i % 9 == 8:
+            evaluate_resume(ctx, gen_resume_case(ctx, i))
+            continue
         evaluate(ctx, gen_case(ctx, i), pending)
         if len(pending) >= 200:
             flush(ctx, pending)
@@ -1005,6 +1200,21 @@ def replay(ctx, rep):
         run(ctx)
         return bool(ctx.violations or ctx.disagreements)
     case = case_from_json(inp)
+    if case.get("resume"):
+        for k in ("cs2", "ss2"):
+            case["resume"][k] = dict(case["resume"][k])
+            case["resume"][k]["minVersion"] = tuple(case["resume"][k]["minVersion"])
+            case["resume"][k]["maxVersion"] = tuple(case["resume"][k]["maxVersion"])
+        L1, L2, cap2 = run_resume(case)
+        if L2 is None or not (L2.client.state == "done" and L2.server.state == "done"):
+            print("second handshake did not complete on both ends")
+            return False
+        still = False
+        for k, what in oracle_resumed(ctx, case, L2, cap2):
+            print("  oracle:", k, "-", what)
+            if inp.get("key") in (None, k):
+                still = True
+        return still
     L, cap = run_case(case)
     out = impl_outcome(L, cap, case)
     print("implementation:", fmt_outcome(out))
